@@ -40,6 +40,7 @@ def step (line : String) : String :=
   | "bounds" :: rest => runBounds (parseKV rest)
   | "memidx" :: rest => runMemidx (parseKV rest)
   | "aflag" :: rest => runAflag (parseKV rest)
+  | "kern3" :: rest => runKern3 (parseKV rest)
   | "vw" :: rest => runVw (parseKV rest)
   | "inv" :: rest => runInv (parseKV rest)
   | "permute" :: rest => runPermute (parseKV rest)
